@@ -603,6 +603,41 @@ fn all_session_scenarios() -> Vec<String> {
     out
 }
 
+// ------------------------------------------------------------------ family: permchange (C09: a permission list changed while the user's session is open)
+const PC_USERS: [(&str, &str); 3] = [("usr", "use-db d usr ut"), ("nolist", "use-db d nolist nt"), ("star", "use-db d star st")];
+const PC_LISTS: [&str; 4] = ["r pub*", "w sec*|r sea", "rwix *", "i cnt"];
+const PC_CMDS: [(&str, &str, char); 7] = [("get secret", "secret", 'r'), ("get public1", "public1", 'r'), ("set secret x", "secret", 'w'), ("set public1 y", "public1", 'w'),
+    ("increment cnt 1", "cnt", 'i'), ("remove public1", "public1", 'x'), ("get sea", "sea", 'r')];
+fn scenario_permchange(sc: &str) -> Result<Violations, String> {
+    // sc = "<user idx>|<new list idx>|<first cmd idx>|<second cmd idx>": the user logs in and runs the first command (decided by the list stored then), an administrator
+    // replaces the user's permission list, the user runs the second command: it must be decided by the list stored NOW
+    let p: Vec<usize> = sc.split('|').map(|x| x.parse().unwrap_or(99)).collect();
+    if p.len() != 4 || p[0] >= PC_USERS.len() || p[1] >= PC_LISTS.len() || p[2] >= PC_CMDS.len() || p[3] >= PC_CMDS.len() { return Err("bad scenario".into()); }
+    let (user, login) = PC_USERS[p[0]];
+    let w = mk_world(0);
+    let mut v: Violations = vec![];
+    let (mut c, mut rx) = Client::new_empty_and_receiver();
+    let (mut admin, mut arx) = Client::new_empty_and_receiver();
+    for a in ["auth u p", "use-db d tok"] { run_cmd(&w, &mut admin, &mut arx, a); }
+    run_cmd(&w, &mut c, &mut rx, login);
+    let out = catch_unwind(AssertUnwindSafe(|| run_cmd(&w, &mut c, &mut rx, PC_CMDS[p[2]].0)));
+    if out.is_err() { v.push("C10.safety".into()); return Ok(v); }
+    let (r, _) = run_cmd(&w, &mut admin, &mut arx, &format!("set-permissions {} {}", user, PC_LISTS[p[1]]));
+    if is_err(&r) { return Err("set-permissions refused".into()); }
+    let (cmd, key, kind) = PC_CMDS[p[3]];
+    let out = catch_unwind(AssertUnwindSafe(|| run_cmd(&w, &mut c, &mut rx, cmd)));
+    let (r, _msgs) = match out { Ok(x) => x, Err(_) => { v.push("C10.safety".into()); return Ok(v); } };
+    let allowed = ref_list_grants(PC_LISTS[p[1]], key, kind);
+    let denied = matches!(&r, Response::Error { msg } if msg == "permission denied\n");
+    for l in ["C09.list-decides", "C09.permission-gate", "C09.current-list-decides"] { chk(&mut v, l, if allowed { !denied } else { is_err(&r) }); }
+    Ok(v)
+}
+fn all_permchange_scenarios() -> Vec<String> {
+    let mut out = vec![];
+    for u in 0..PC_USERS.len() { for l in 0..PC_LISTS.len() { for a in 0..PC_CMDS.len() { for b in 0..PC_CMDS.len() { out.push(format!("{}|{}|{}|{}", u, l, a, b)); } } } }
+    out
+}
+
 // ------------------------------------------------------------------ family: arbiter queue (C13 multi-step)
 fn scenario_arbiter(sc: &str) -> Result<Violations, String> {
     // sc = "<number of conflicting writes 1..3>|<resolution order as digits, e.g. 021>"
@@ -613,21 +648,29 @@ fn scenario_arbiter(sc: &str) -> Result<Violations, String> {
     let (db, _rx) = mk_db(ConsensuStrategy::Arbiter, None);
     let (arb, mut arx) = Client::new_empty_and_receiver();
     db.register_arbiter(&arb);
+    // variant `away`: the arbiter registered once and has left (disconnect = unwatch-all) before the conflicts happen; they must be kept for the next arbiter
+    let away = p.len() > 2 && p[2] == "away";
+    if away { unwatch_all(&arb.sender, &db); }
     let mut v: Violations = vec![];
     set_key_value("k".into(), "v0".into(), -1, &db, &dbs);
     set_key_value("k".into(), "v1".into(), -1, &db, &dbs);
     for i in 0..nconf { let r = set_key_value("k".into(), format!("c{}", i), 0, &db, &dbs); chk(&mut v, "C13.set-arbiter", is_err(&r)); }
     chk(&mut v, "C13.keep-old", db.get_value("k".into()).map_or(false, |e| e.value == "v1" && e.version == MARK));
-    let notices = drain(&mut arx);
-    chk(&mut v, "C13.deliver", notices.len() == nconf);
-    // the arbiter answers each notice echoing its op id and version:  resolve <opp_id> <db> <version> <key> <old> <new>
-    let parsed: Vec<(u64, i32, String)> = notices.iter().map(|n| { let f: Vec<&str> = n.split(' ').collect(); (f[1].parse().unwrap(), f[3].parse().unwrap(), f[6..].join(" ")) }).collect();
+    let mut notices = drain(&mut arx);
+    chk(&mut v, "C13.deliver", notices.len() == if away { 0 } else { nconf });
     // a second arbiter registering now is sent exactly the unresolved notices (all of them, nothing is resolved yet)
     let (arb2, mut arx2) = Client::new_empty_and_receiver();
     db.register_arbiter(&arb2);
     let again = drain(&mut arx2);
+    if away {
+        chk(&mut v, "C13.redeliver", again.len() == nconf); chk(&mut v, "C13.record", again.len() == nconf);
+        if again.len() != nconf { return Ok(v); }
+        notices = again.clone();
+    }
     let mut a_sorted = again.clone(); a_sorted.sort(); let mut n_sorted = notices.clone(); n_sorted.sort();
     chk(&mut v, "C13.redeliver", a_sorted == n_sorted);
+    // the arbiter answers each notice echoing its op id and version:  resolve <opp_id> <db> <version> <key> <old> <new>
+    let parsed: Vec<(u64, i32, String)> = notices.iter().map(|n| { let f: Vec<&str> = n.split(' ').collect(); (f[1].parse().unwrap(), f[3].parse().unwrap(), f[6..].join(" ")) }).collect();
     drain(&mut arx);
     for (step, idx) in order.iter().enumerate() {
         if *idx >= parsed.len() { continue; }
@@ -655,7 +698,7 @@ fn scenario_arbiter(sc: &str) -> Result<Violations, String> {
     Ok(v)
 }
 fn all_arbiter_scenarios() -> Vec<String> {
-    vec!["1|0", "2|01", "2|10", "3|012", "3|021", "3|102", "3|120", "3|201", "3|210"].into_iter().map(|x| x.to_string()).collect()
+    vec!["1|0", "2|01", "2|10", "3|012", "3|021", "3|102", "3|120", "3|201", "3|210", "1|0|away", "2|01|away", "2|10|away"].into_iter().map(|x| x.to_string()).collect()
 }
 
 // ------------------------------------------------------------------ family: watch (subscription windows, sequential)
@@ -1062,7 +1105,8 @@ fn families() -> Vec<(&'static str, fn() -> Vec<String>, fn(&str) -> Result<Viol
          ("http", all_http_scenarios, scenario_http),
          ("election", all_election_scenarios, scenario_election),
          ("snapshot", all_snapshot_scenarios, scenario_snapshot),
-         ("resync", all_resync_scenarios, scenario_resync)]
+         ("resync", all_resync_scenarios, scenario_resync),
+         ("permchange", all_permchange_scenarios, scenario_permchange)]
 }
 
 fn main() {
